@@ -197,3 +197,37 @@ Definition alignments_full (a : align_in) : res (list (list Z)) :=
   alignments_loop ref left (ai_pos a) rows.
 
 Definition alleles_list_eqb := list_eqb allele_eqb.
+
+(* ---- Variant.frequencies(remove_missing) (genotypes.py 299-330), over Q ------------------------
+   total = len(samples) (- num_missing if remove_missing); every item of counts() except the
+   None key when remove_missing; value count/total, or nan ([None]) when total = 0. *)
+From Coq Require Import QArith.
+Definition is_none_key (k : option allele) : bool := match k with None => true | Some _ => false end.
+
+Definition frequencies_model (remove_missing : bool) (r : decode_result)
+  : list (option allele * option Q) :=
+  let '(g, al, hm) := r in
+  let total := (zlen g - (if remove_missing then num_missing_model r else 0))%Z in
+  map (fun kc => (fst kc, if (0 <? total)%Z then Some (snd kc # Z.to_pos total) else None))
+      (filter (fun kc => negb (remove_missing && is_none_key (fst kc))) (counts_model r)).
+
+Fixpoint fget {A} (d : list (option allele * A)) (k : option allele) : option A :=
+  match d with
+  | [] => None
+  | (k', y) :: r => if okey_eqb k k' then Some y else fget r k
+  end.
+
+Definition oq_eqb (a b : option Q) : bool :=
+  match a, b with Some x, Some y => Qeq_bool x y | None, None => true | _, _ => false end.
+Definition freqs_eqb (a b : list (option allele * option Q)) : bool :=
+  list_eqb (fun x y => okey_eqb (fst x) (fst y) && oq_eqb (snd x) (snd y)) a b.
+
+(* ---- Variant.copy() = tsk_variant_restricted_copy (genotypes.c 577-628): every observable is
+   copied, tree_sequence is set to NULL, and decode on the copy is refused (472-475) ---------- *)
+Definition ERR_VARIANT_CANT_DECODE_COPY : Z := -808.
+Record variant_copy := mkCopy {
+  c_samples : list Z; c_genotypes : list Z; c_alleles : list allele; c_has_missing : bool }.
+Definition restricted_copy (v : variant) (r : decode_result) : variant_copy :=
+  let '(g, al, hm) := r in mkCopy (v_samples v) g al hm.
+Definition decode_copy (c : variant_copy) (s : site) : res decode_result :=
+  Err ERR_VARIANT_CANT_DECODE_COPY.
